@@ -1,7 +1,8 @@
 ------------------------------ MODULE MC_C02 ------------------------------
 EXTENDS HclStruct
 MCAttrNames == {"a", "b"}
-MCBlockTypes == {"t"}
+\* the block type shares its name with an attribute (separate namespaces)
+MCBlockTypes == {"a"}
 MCValuesFull == {"1", "\"v\"", "[1, 2]", "{ k = 1 }"}
 MCValuesFew == {"1"}
 =============================================================================
